@@ -440,6 +440,55 @@ def r10_token_rules_return_the_token(chk):
     chk.floor('C11.R10', 15, 'function rules')
 
 
+
+def r10_rule_functions_cannot_raise_foreign(chk):
+    """Expressions inside lexer / parser rule functions (the error rules above all: they run on exactly the inputs
+    nobody tried) that raise a foreign exception on some input text: a constant index into the result of a
+    whitespace split() (empty for blank text; any index >= 1 may be missing), .group() on an unchecked match,
+    str.index()."""
+    model = chk.model
+    chk.doc('C11.R10', 'no expression in a t_* / p_* function can raise IndexError / AttributeError / ValueError on '
+                       'some input text: no constant subscript of a whitespace-split() result (or index >= 1 of any '
+                       'split), no .group() on an unchecked re.match/search result, no str.index(); whatever an error '
+                       'rule quotes from the input is taken by slicing')
+    n = 0
+    for rel in (LEXER, 'pysmi/parser/smi.py'):
+        mod = model.mod(rel)
+        for c in mod.classes():
+            for fn in [f for f in c.body if isinstance(f, ast.FunctionDef) and f.name.startswith(('t_', 'p_'))]:
+                n += 1
+                bad = []
+                for x in walk_no_nested(fn):
+                    if isinstance(x, ast.Subscript) and isinstance(x.value, ast.Call) and \
+                            isinstance(x.value.func, ast.Attribute) and x.value.func.attr in ('split', 'rsplit',
+                                                                                             'splitlines', 'findall'):
+                        idx = x.slice
+                        if isinstance(idx, ast.Slice):
+                            continue
+                        k = idx.value if isinstance(idx, ast.Constant) else None
+                        if isinstance(idx, ast.UnaryOp) and isinstance(idx.op, ast.USub) and \
+                                isinstance(idx.operand, ast.Constant):
+                            k = -idx.operand.value
+                        sep = bool(x.value.args) and not (isinstance(x.value.args[0], ast.Constant) and
+                                                          x.value.args[0].value is None)
+                        safe = x.value.func.attr in ('split', 'rsplit') and sep and k in (0, -1)
+                        if not safe:
+                            bad.append((x, 'IndexError when the text has fewer parts'))
+                    if isinstance(x, ast.Call) and isinstance(x.func, ast.Attribute) and x.func.attr == 'group' and \
+                            isinstance(x.func.value, ast.Call) and dotted_name(x.func.value.func) in (
+                                're.match', 're.search', 're.fullmatch'):
+                        bad.append((x, 'AttributeError when the pattern does not match'))
+                    if isinstance(x, ast.Call) and isinstance(x.func, ast.Attribute) and x.func.attr == 'index' and \
+                            len(x.args) >= 1 and not isinstance(x.func.value, ast.Name):
+                        bad.append((x, 'ValueError when the text does not contain it'))
+                for x, why in bad:
+                    chk.ob('C11.R10', '%s.%s/%s' % (c.name, fn.name, norm(x)[:60]), False, where(mod, x),
+                           '%s: %s - a foreign exception escapes from parse() / compile()' % (norm(x)[:80], why))
+                if not bad:
+                    chk.ob('C11.R10', '%s.%s' % (c.name, fn.name), True, where(mod, fn), '')
+    chk.floor('C11.R10', 150, 'rule functions of lexer and parser')
+
+
 RULES = [r1_located_package_errors, r2_state_totality, r3_progress_and_token_types, r4_line_accounting, r5_p_error,
          r6_parse_result, r7_numeric_conversion, r8_actions_cannot_raise_typeerror, r9_number_classifier,
-         r10_token_rules_return_the_token]
+         r10_token_rules_return_the_token, r10_rule_functions_cannot_raise_foreign]
